@@ -18,12 +18,47 @@ func newResult(id, doc string, min int) *report.RuleResult {
 	return &report.RuleResult{ID: id, Doc: doc, MinInstances: min}
 }
 
-// missing records an anchor the rule could not resolve. The construct that is
-// meant to make the property hold is not where the rule expects it, so this is
-// reported as a violation of the clause (never silently skipped).
+// missing records an anchor the rule could not resolve: the function, table or
+// comparison the rule reasons about is not where (or not named what) the rule
+// expects. The rule then cannot decide its clause: the obligation is Undecided
+// (the check ends in CHECKER-ERROR, exit 2, without a VIOLATION line). A
+// renamed helper must not be reported as a broken property; a removed
+// safeguard usually still is, by the rules that do not depend on its name.
 func missing(r *report.RuleResult, anchor, why string) {
-	r.Add(report.Obligation{Key: "anchor|" + anchor, Func: anchor, Pos: "-", What: "anchor " + anchor, Status: report.Violation,
-		Detail: "anchor not found: " + why})
+	r.Add(report.Obligation{Key: "anchor|" + anchor, Func: anchor, Pos: "-", What: "anchor " + anchor, Status: report.Undecided,
+		Detail: "anchor not found: " + why + " (renamed, moved or removed: this rule cannot decide its clause on this tree)"})
+}
+
+// Roles: the names of module functions a rule recognises calls by (calleeIs).
+// A rule whose verdict depends on "this call is binaryWriter.write" silently
+// changes meaning when that method is renamed; every name asked for during a
+// rule's run is recorded and checked afterwards (CheckRoles).
+var roleLog map[[2]string]bool
+
+// BeginRoles starts recording.
+func BeginRoles() { roleLog = map[[2]string]bool{} }
+
+// CheckRoles returns the recorded (receiver, name) pairs that no function of
+// the module answers to.
+func CheckRoles(p *load.Program) []string {
+	var out []string
+	have := map[[2]string]bool{}
+	for _, f := range p.Funcs {
+		have[[2]string{recvTypeName(f), f.Name()}] = true
+		have[[2]string{"", f.Name()}] = true
+	}
+	for k := range roleLog {
+		if !have[k] {
+			if k[0] != "" {
+				out = append(out, k[0]+"."+k[1])
+			} else {
+				out = append(out, k[1])
+			}
+		}
+	}
+	sort.Strings(out)
+	roleLog = nil
+	return out
 }
 
 // implementers returns the named struct types of pkg whose pointer type
@@ -197,3 +232,84 @@ func calleeNames(p *load.Program, c ssa.CallInstruction) string {
 func sprintf(f string, a ...interface{}) string { return fmt.Sprintf(f, a...) }
 
 func sortStrings(s []string) { sort.Strings(s) }
+
+// ModuleIdents lists the identifiers of the analysed module that rules can
+// depend on by name: functions, methods, named types, struct fields,
+// constants and package-level variables of the non-test packages.
+func ModuleIdents(p *load.Program) []string {
+	set := map[string]bool{}
+	for _, pk := range []*ssa.Package{p.Ion, p.Cmd} {
+		if pk == nil {
+			continue
+		}
+		for name, m := range pk.Members {
+			if pos := m.Pos(); pos.IsValid() && p.IsTestFile(pos) {
+				continue
+			}
+			set[name] = true
+			if t, ok := m.(*ssa.Type); ok {
+				// fields and interface methods are qualified by their type: the same field name in
+				// another struct does not stand in for a renamed one
+				if st, ok := t.Type().Underlying().(*types.Struct); ok {
+					for i := 0; i < st.NumFields(); i++ {
+						set[name+"."+st.Field(i).Name()] = true
+					}
+				}
+				if it, ok := t.Type().Underlying().(*types.Interface); ok {
+					for i := 0; i < it.NumMethods(); i++ {
+						set[name+"."+it.Method(i).Name()] = true
+					}
+				}
+			}
+		}
+	}
+	for _, f := range p.Funcs {
+		if !p.InTest(f) && p.InModule(f) && f.Parent() == nil && f.Synthetic == "" {
+			if rt := recvTypeName(f); rt != "" {
+				set[rt+"."+f.Name()] = true
+			} else {
+				set[f.Name()] = true
+			}
+		}
+	}
+	var out []string
+	for k := range set {
+		out = append(out, k)
+	}
+	sort.Strings(out)
+	return out
+}
+
+// MissingAnchors returns the identifiers the rule's source file(s) mention as
+// string literals (anchorsByFile, generated by tools/gen_anchors.py from the
+// tree the rules were written for) that the analysed module no longer defines.
+func MissingAnchors(p *load.Program, ruleID string) []string {
+	have := map[string]bool{}
+	for _, id := range ModuleIdents(p) {
+		have[id] = true
+	}
+	var out []string
+	seen := map[string]bool{}
+	for _, file := range append([]string{"(shared)"}, anchorFilesOfRule[ruleID]...) {
+		for _, id := range anchorsByFile[file] {
+			if optionalAnchor[id] {
+				continue
+			}
+			if !have[id] && !seen[id] {
+				seen[id] = true
+				out = append(out, id)
+			}
+		}
+	}
+	sort.Strings(out)
+	return out
+}
+
+// optionalAnchor: names the rules mention but whose absence they handle (a
+// one-result wrapper of a decoder that may be inlined, a single-use helper).
+var optionalAnchor = map[string]bool{
+	"bitstream.readVarUint": true, "bitstream.skipVarUint": true, "bitstream.readVarInt": true,
+	"binaryWriter.writeTag": true, "binaryWriter.writeLen": true,
+	"tokenizer.skipStructHelper": true, "tokenizer.skipListHelper": true, "tokenizer.skipSexpHelper": true,
+	"tokenizer.skipWhitespaceHelper": true,
+}
